@@ -121,3 +121,11 @@ MUTANTS += [
     dict(property='C08', name='compiled closure freezes the parameter values at compile time', file=DETF, old="        def comp_obj(state, time):\n            return compiled_obj(self._getEvalParam(state, time, None))", new="        frozen = list(self._paramValue)\n        def comp_obj(state, time):\n            return compiled_obj(list(state) + [time] + frozen)"),
     dict(property='C08', name='add_birth_death(D) does not invalidate', file=BASEF, old="                self._birthDeathList.append(death_event)\n                self._hasNewTransition.trip()   ", new="                self._birthDeathList.append(death_event)"),
 ]
+MUTANTS += [
+    dict(property='C15', name='exact-mode counts are totals again (histogram of all times, no weights)', file=SIMF, old="hist, bin_edges=np.histogram(t[1:], bins=targetTime, weights=dX[:,i])", new="hist, bin_edges=np.histogram(t, bins=targetTime)"),
+    dict(property='C15', name='counts weighted by the first column for every transition', file=SIMF, old="hist, bin_edges=np.histogram(t[1:], bins=targetTime, weights=dX[:,i])", new="hist, bin_edges=np.histogram(t[1:], bins=targetTime, weights=dX[:,0])"),
+    dict(property='C15', name='extract uses the next event instead of the last one before', file=SIMF, old="                index = max(np.searchsorted(t, t_target) - 1, 0)", new="                index = min(np.searchsorted(t, t_target), len(t) - 1)"),
+    dict(property='C15', name='rotation pairs counts of run r with times of run r+1', file=SIMF, old="                simJump = simJumpList.pop(0)\n                jump=self._addJumpsBetweenTime(simJump, simT, t, exact)", new="                simJump = simJumpList.pop(0)\n                jump=self._addJumpsBetweenTime(simJump, simTList[0] if len(simTList) else simT, t, exact)"),
+    dict(property='C15', name='grid given as a list: horizon is the first grid time', file=SIMF, old="            else:\n                finalT = t[-1:]\n                timePoint = True\n        elif isinstance(t, np.ndarray):", new="            else:\n                finalT = t[:1]\n                timePoint = True\n        elif isinstance(t, np.ndarray):"),
+    dict(property='C15', name='exact gridded states interpolated instead of extracted', file=SIMF, old="                if exact:\n                    x = self._extractObservationAtTime(simX, simT, t)", new="                if not exact:\n                    x = self._extractObservationAtTime(simX, simT, t)"),
+]
